@@ -66,7 +66,7 @@ func (w *World) typeSlots() ([]typeSlot, []string) {
 					continue
 				}
 				switch {
-				case e.Kind == "loophead" || e.Kind == "fieldstore" || e.Kind == "mapupdate" || e.Kind == "register" || e.Kind == "typetest":
+				case e.Kind == "loophead" || e.Kind == "fieldstore" || e.Kind == "mapupdate" || e.Kind == "register" || e.Kind == "typetest" || strings.HasPrefix(e.Kind, "encode:"):
 					continue
 				case strings.HasPrefix(e.Kind, "scalar:"):
 					out = append(out, typeSlot{name, hdr, e.Kind, e.Pos, tables})
